@@ -2,7 +2,6 @@ package main
 
 // GENERATED from neo3.go by gen_neo3legacy.sh. Do not edit.
 
-
 import (
 	"crypto/sha256"
 	"encoding/hex"
